@@ -50,6 +50,7 @@ def birth_rules(ctx, prog):
     # pipe(): both ends close-on-exec before they are published, on every path
     F = prog.fn("pipe_init")
     I = new_interp(prog)
+    I.widen = False
     st = State()
     st.mon["nofail"] = True
     res = I.run(F, [st])
@@ -99,14 +100,18 @@ def leaf_contract(ctx, prog):
 
 
 def closeall_rules(ctx, prog):
-    F = prog.fn("process_fork")
     G = prog.fn("get_max_fd")
-    # --- range: exclusive upper bound of the loop >= rlim_cur
-    loops = [n for n in F.walk() if n["k"] == "ForStmt" and any(x["k"] == "CallExpr" and x.get("callee") in ("handle_destroy", "close")
-                                                              for x in walk_nodes(n))]
-    if len(loops) != 1:
-        raise AnalysisBroken("C11.X2: expected one close-all loop in process_fork, found %d" % len(loops))
-    loop = loops[0]
+    # --- the close-all loop: the one loop of the forking code that closes descriptors (it may live in a helper)
+    found = []
+    for Fx in prog.funcs_all:
+        if not Fx.file.endswith("process.posix.c") or not [x for x in Fx.calls("get_max_fd")]:
+            continue
+        for n in Fx.walk():
+            if n["k"] == "ForStmt" and any(x["k"] == "CallExpr" and x.get("callee") in ("handle_destroy", "close") for x in walk_nodes(n)):
+                found.append((Fx, n))
+    if len(found) != 1:
+        raise AnalysisBroken("C11.X2: expected one close-all loop in process.posix.c, found %d" % len(found))
+    F, loop = found[0]
     init = F.nodes[loop["init"]]
     cond = strip(F.nodes[loop["cond"]])
     inc = strip(F.nodes[loop["inc"]])
@@ -128,6 +133,8 @@ def closeall_rules(ctx, prog):
                 for y in F.walk():
                     if y["k"] == "BinaryOperator" and y["op"] == "=" and expr_str(strip(y["c"][0])) == src["name"] \
                             and strip(y["c"][1]).get("callee") == "get_max_fd":
+                        from_get = True
+                    if y["k"] == "VarDecl" and y["name"] == src["name"] and y.get("c") and strip(y["c"][0]).get("callee") == "get_max_fd":
                         from_get = True
             elif src.get("callee") == "get_max_fd":
                 from_get = True
@@ -152,14 +159,20 @@ def closeall_rules(ctx, prog):
         ok = L.geq(excl, soft)
         det["exclusive_upper_bound"] = L.show(excl)
         det["needed"] = L.show(soft)
+    # the helper (if any) runs on the child side of process_fork only
+    if F.name != "process_fork":
+        callers = {Fx.name for Fx, n in callsites(prog, F.name)}
+        ctx.ob("C11.X2h", "%s" % F.name, "the close-all helper is called from the forking function only", callers == {"process_fork"}, {"callers": sorted(callers)})
     ctx.ob("C11.X2", "process_fork: close-all loop range", "the loop visits every permitted descriptor number: it starts at 0, steps by 1 and "
            "its exclusive upper bound is at least the soft RLIMIT_NOFILE", ok, det, nontrivial=True)
     # --- body: each visited descriptor is closed unless excused
+    FK = prog.fn("process_fork")
     I = new_interp(prog)
     I.keep_live = {var}
+    loopfn = F.name
 
     def body_hook(I_, fn, n, name, args, st):
-        if fn.name != "process_fork" and name != "close":
+        if fn.name != loopfn and name != "close":
             return None
         if st.mon.get("proc") != "child":
             return None
@@ -183,7 +196,7 @@ def closeall_rules(ctx, prog):
     verdicts = {}
 
     def store_hook(I_, fn, node, cell, val, st):
-        if fn is None or fn.name != "process_fork" or node is None:
+        if fn is None or fn.name != loopfn or node is None:
             return None
         if node["k"] == "UnaryOperator" and node["op"] == "++" and cell[0] == "v" and I_.name_of_did.get(cell[1]) == var:
             how = st.mon.get("iter", "skipped")
@@ -200,10 +213,21 @@ def closeall_rules(ctx, prog):
 
     # excuses are observed at the branch level: a `continue` taken because the loop variable equals an error pipe end,
     # because fd_in_set() said yes, or because fcntl(F_GETFD) failed
+    pipe_cmp = {}
+
     def cmp_hook(I_, fn, node, op, va, vb, st):
-        return None
+        if fn.name != loopfn or op != "==":
+            return
+        vcells = [c for c in st.mem if c[0] == "v" and I_.name_of_did.get(c[1]) == var]
+        cur = st.mem.get(vcells[0]) if vcells else None
+        for mine, other in ((va, vb), (vb, va)):
+            if cur is not None and mine == cur:
+                is_pipe = len(other) == 1 and isinstance(next(iter(other)), tuple) and next(iter(other))[0] == "fd" \
+                    and str(st.res.get(next(iter(other)), ("", "", ""))[2]).startswith("pipe")
+                pipe_cmp[node["id"]] = pipe_cmp.get(node["id"], True) and is_pipe
+    I.hooks_cmp.append(cmp_hook)
     st0 = State()
-    res = I.run(F, [st0])
+    res = I.run(FK, [st0])
     ctx.stats("E-ABS", I.stats)
     # structural classification of the ways to reach the increment without closing
     body = F.nodes[loop["body"]]
@@ -224,8 +248,9 @@ def closeall_rules(ctx, prog):
                 kind = "keep list"
             elif not calls and var in refs and all(x["k"] != "BinaryOperator" or x["op"] in ("==", "||") for x in walk_nodes(cond_if)
                                                    if x["k"] == "BinaryOperator"):
-                others = refs - {var}
-                kind = "error pipe" if others and all(o == "pipe" for o in others) else None
+                eqs = [x for x in walk_nodes(cond_if) if x["k"] == "BinaryOperator" and x["op"] == "=="]
+                # every comparison is `loop variable == an end of the error pipe` (judged on the abstract values, not the names)
+                kind = "error pipe" if eqs and all(pipe_cmp.get(x["id"]) for x in eqs) else None
         excuses.append((txt, kind))
     ctx.ob("C11.X2b", "process_fork: close-all loop skips", "a visited descriptor is skipped only because it is one of the error pipe ends "
            "or a member of the keep list", all(k for t, k in excuses) and len(excuses) >= 2, {"continue_conditions": excuses})
